@@ -23,6 +23,14 @@ class DatetimeV:
         self.epoch = epoch
 
 
+class SecV:
+    """datetime.datetime (kind 'dt', built by datetime.combine(date.min, t)) or datetime.timedelta (kind 'td') as a whole
+    number of seconds; timedelta.days = floor(seconds / 86400) (Python normalises 0 <= .seconds < 86400)"""
+
+    def __init__(self, kind, sec):
+        self.kind, self.sec = kind, sec
+
+
 class PartialV:
     """functools.partial(f, **kw)"""
 
@@ -357,6 +365,24 @@ def call_builtin(ex, name, args, kw, st, where, env):
         name = "filterfalse"
     if name in ("map", "filter", "zip", "filterfalse"):
         yield from mapfilterzip(ex, name, args, st, where)
+        return
+    if name == "datetime.datetime.combine":
+        from .exec import Builtin
+        if not (isinstance(args[0], Builtin) and args[0].name == "datetime.date.min"):
+            raise PyvcUnsupported("datetime.combine with a date other than date.min")
+        ex.iface_used.add("datetime.combine(date.min, t) - datetime.combine(date.min, s) == t - s seconds; timedelta.days == floor(seconds / 86400)")
+        yield SecV("dt", args[1]), st
+        return
+    if name == "datetime.timedelta":
+        if args:
+            raise PyvcUnsupported("timedelta with positional arguments")
+        tot = 0
+        for k_, mult in (("days", 86400), ("hours", 3600), ("minutes", 60), ("seconds", 1)):
+            if k_ in kw:
+                tot = v_arith("+", tot, v_arith("*", kw[k_], mult))
+        if set(kw) - {"days", "hours", "minutes", "seconds"}:
+            raise PyvcUnsupported("timedelta with sub-second arguments")
+        yield SecV("td", tot), st
         return
     if name.endswith("utcfromtimestamp"):
         ex.iface_used.add("datetime.utcfromtimestamp(t).time() == t mod 86400")
